@@ -410,6 +410,8 @@ def main(argv=None):
         key = o["id"].split("/", 1)[1]
         if key in only:
             return a.prop in only[key]
+        if "serves_default" in cfg and not key.startswith(("splice", "verus", "count", "setup", "differential")):
+            return a.prop in cfg["serves_default"]
         return True
     obligations = [o for o in obligations if serves(o)]
 
